@@ -39,7 +39,7 @@ from ..summaries import Summaries
 
 LEVEL = "other"
 META = {
-    "technique": "static analysis: shape-derived effect classification of list primitives (which token classes a filter/trim can drop, through predicate functions), closed-world who-may-call / who-may-construct over the fix-reachable may-call graph, per-family must-consult check (fix + analysis + region selection of every live rule from the static rule table), sibling agreement of trimming primitives inside region extractors",
+    "technique": "static analysis: shape-derived effect classification of list primitives (which token classes a filter/trim can drop, through predicate functions), closed-world who-may-call / who-may-construct over the fix-reachable may-call graph, per-family must-consult check (fix + analysis + region selection of every live rule from the static rule table), sibling agreement of trimming primitives inside region extractors; for tabled whole-region sites, dominance of every producer of the guarded action by a negative region-wide comment test",
     "level_text": "Decides, for every input and configuration, four structural necessary conditions: comments can be deleted only at the enumerated documented sites or in "
     "families that look for comments; every family that removes line breaks looks for comments; only the comment-formatting rules write comment text; region "
     "extractors treat comments alike at both ends. It does not decide comments(fix(x)) == comments(x): index-computed deletions inside fixes are run-time selections "
